@@ -49,7 +49,8 @@ Fields == {[ty |-> t, tag |-> "plain"] : t \in FieldTypes}
 
 \* structural variants of a model: plain struct, with an embedded struct (promoted fields), with an
 \* embedded pointer, the type itself being a slice / map / named scalar
-Shapes == {"struct", "embedded", "embedded_ptr"}
+\* embedded_unexported: the embedded struct's TYPE is unexported (its exported fields are still promoted)
+Shapes == {"struct", "embedded", "embedded_ptr", "embedded_unexported"}
 
 (***************************************************************************)
 (* Instances of an (observed) schema: boundary-ish values per type, object *)
